@@ -261,6 +261,11 @@ func (s *Scope) Decorate(decorator interface{}, opts ...DecorateOption) error {
 			fmt.Sprintf("must provide decorator function, got %v (type %v)", decorator, dtype), nil)
 	}
 
+	if reflect.ValueOf(decorator).IsNil() {
+		return newErrInvalidInput(
+			fmt.Sprintf("can't decorate with a nil function (type %v)", dtype), nil)
+	}
+
 	var options decorateOptions
 	for _, opt := range opts {
 		opt.apply(&options)
